@@ -398,6 +398,9 @@ var xFixedSources = []string{
 	"chan<- <-chan int", "<-chan chan<- int", "chan (chan<- int)", "func() func() int", "func(func(int) string) func() func()",
 	"func() (func(), error)", "func(a, b int, c ...string) (x, y int)", "func(...int)", "func(int, ...string) bool",
 	"func() (<-chan int)", "func() chan int", "func() *T", "func() []func()", "func() (r int)", "func() ()", "func(a int,)",
+	// one unnamed result between parentheses is printed without them: one for each kind of token that starts a type
+	"func() (chan int)", "func() (*T)", "func() ([]int)", "func() ([2]int)", "func() (map[string]int)", "func() (func())",
+	"func() (interface{})", "func() (struct { a int })", "func() (T)", "func() (pkg.T)", "func() (chan<- int)", "func() ((T))",
 	"a[:]", "a[1:]", "a[:2]", "a[1:2]", "a[:2:3]", "a[1:2:3]", "a[1::3]", "a[::]", "a[::3]", "a[f(x):][0]",
 	"1 .x", "1.0.x", "(1).x", "1_000 .s", "(72).(T)", "f(s, 5 ...)", "f(s, 5.0...)", "f(a...)", "0x1F .x", "'a'.x", "\"s\".x", "2i.x", "1e3.x",
 	"- -x", "-(-x)", "&*p", "*&p", "<-<-c", "<-(<-c)", "!!a", "^-x", "-^x", "+-x",
